@@ -181,14 +181,27 @@ func c01GenProgs(args []string) {
 		opts := pgen.WildFlat()
 		mode := "mode_wild_flat"
 		switch k := rng.Intn(10); {
-		case os.Getenv("VH_GEN_MODE") == "wild_nested" || k < 4:
+		case os.Getenv("VH_GEN_MODE") == "wild_nested" || (os.Getenv("VH_GEN_MODE") == "" && k < 4):
 			opts, mode = pgen.WildNested(), "mode_wild_nested"
-		case k < 7:
+		case os.Getenv("VH_GEN_MODE") == "disabled_heavy" || (os.Getenv("VH_GEN_MODE") == "" && k < 6):
+			opts, mode = pgen.DisabledHeavy(), "mode_disabled_heavy"
+		case k < 8:
 			opts, mode = pgen.TameNested(), "mode_tame_nested"
 		}
 		g := pgen.NewG(rng, opts)
+		var p *pgen.Program
+		if gm := os.Getenv("VH_GEN_MODE"); gm == "disable_chain" || (gm == "" && rng.Intn(6) == 0) {
+			// the parametric family "nested run-time disabling" (pgen/chain.go)
+			var st map[string]int
+			p, st = pgen.GenDisableChain(rng, stagecmd)
+			for k, v := range st {
+				g.Stats[k] += v
+			}
+			mode = "mode_disable_chain"
+		} else {
+			p = g.Gen(stagecmd)
+		}
 		g.Stats[mode]++
-		p := g.Gen(stagecmd)
 		dir := filepath.Join(outdir, fmt.Sprintf("p%04d", i))
 		os.MkdirAll(dir, 0o755)
 		os.WriteFile(filepath.Join(dir, "pipeline.mro"), []byte(p.Mro()), 0o644)
